@@ -18,7 +18,17 @@ def run(ctx):
         for w in range(0, nf, per):
             jobs.append(lambda b=b, w=w, cnt=min(per, nf - w): vf.run_resumable(
                 ctx, b, ["--seed", ctx.seed], w, cnt, timeout=1500, tag="timers"))
-    for rrs in vf.run_many(ctx, jobs):
+    # long-handler family: a handler that outlives stop()'s internal 5 s drain / a drain(timeout); one process per
+    # variant (2.5-6 s of wall time, asleep), started first so that they overlap the scenario sweep
+    long_jobs = []
+    for fl in (["plain", "asan"] if thorough else ["plain"]):
+        b = bins[("c08_timers", fl)]
+        for rep in range(3 if thorough and fl == "plain" else 1):
+            for v in range(6):
+                long_jobs.append(lambda b=b, v=v, rep=rep: vf.run_resumable(
+                    ctx, b, ["--seed", int(ctx.seed) + 1000 * rep, "--long", 1], v, 1, timeout=400, tag=f"long{rep}"))
+    jobs = long_jobs + jobs
+    for rrs in vf.run_many(ctx, jobs, workers=16 + len(long_jobs)):
         for rr in rrs:
             ctx.ingest(rr, where=f"(timers, {rr.flavor})")
             if getattr(rr, "bad", None):
@@ -27,7 +37,10 @@ def run(ctx):
                 "2-6 scheduler threads, boundary-biased delays {0, sub-tick, shared bucket, level/cascade boundaries, at and beyond the wheel span}, "
                 "cancel/reschedule racing the fire, handlers {quick, slow, throwing, scheduling, cancelling}, periodic timers, "
                 "first or second life of the service (stop->reset->start after a life ending with cancelled timers pending), shutdown {stop|drain} x {at quiescence | racing the schedulers with a delay injected after the clock read}); "
-                "distinct = hash of those coordinates plus which race outcomes were observed")
+                "distinct = hash of those coordinates plus which race outcomes were observed. Long-handler family: a handler of 5.6-5.8 s "
+                "(outliving TimerService::stop()'s internal 5 s drain) or 1.6-2.7 s (outliving a drain(300)) occupies the timer thread while two "
+                "threads keep scheduling across the teardown by stop() / timed-out drain() then stop() / pool stop() / destructor / wheel stop() / "
+                "wheel drain(300): the returning call must leave no handler running, nothing starts later, nothing accepted during or after it is lost")
     ctx.assumptions = [
         "all stamps come from CLOCK_MONOTONIC via a raw syscall (same clock as steady_clock, never shimmed)",
         "a timer's deadline is bounded below by (time schedule() was called + delay), so 'early' is judged conservatively",
@@ -35,4 +48,43 @@ def run(ctx):
     ]
     ctx.require_obs("scenarios_timerservice", "scenarios_timerpool", "timers_fired", "cancel_true", "cancel_false",
                     "cancel_lost_race_to_fire", "reschedule_true", "periodic_timers", "discarded_by_shutdown",
-                    "late_schedule_refused", "shutdown_stop_racing", "shutdown_drain_racing", "clock_reads_delayed", "scenarios_in_second_life_timerservice", "bursts_due_around_shutdown", "timers_with_sub_millisecond_delay")
+                    "late_schedule_refused", "shutdown_stop_racing", "shutdown_drain_racing", "clock_reads_delayed", "scenarios_in_second_life_timerservice", "bursts_due_around_shutdown", "timers_with_sub_millisecond_delay",
+                    "long_handler_scenarios", "long_timerservice_stop", "long_timerservice_stop-after-timed-out-drain", "long_timerpool_stop",
+                    "long_timerservice_destructor", "long_wheel1_stop", "long_wheel1_drain-with-timeout", "long_drain_timed_out",
+                    "long_due_on_free_thread_judged", "long_refused")
+
+
+def replay(ctx, path):
+    """Re-run the scenario a replay file names (repeated: the interleaving itself is not replayable), else
+    the whole tier with the recorded seed."""
+    import json
+    with open(path) as fh:
+        rp = json.load(fh)
+    d = (rp.get("first") or {}).get("detail") or {}
+    if not isinstance(d, dict) or ("scenario" not in d and "long_variant" not in d):
+        ctx.seed, ctx.tier = rp.get("seed", ctx.seed), rp.get("tier", ctx.tier)
+        return run(ctx)
+    seed = d.get("seed", rp.get("seed", ctx.seed))
+    bins = vf.build_many([("c08_timers", f) for f in ("plain", "tsan")])
+    jobs = []
+    if "long_variant" in d:
+        for rep in range(3):
+            jobs.append(lambda rep=rep: vf.run_resumable(ctx, bins[("c08_timers", "plain")], ["--seed", seed, "--long", 1],
+                                                         int(d["long_variant"]), 1, timeout=400, tag=f"rlong{rep}"))
+        for rrs in vf.run_many(ctx, jobs):
+            for rr in rrs:
+                ctx.ingest(rr, where=f"(replay, {rr.flavor})")
+                if getattr(rr, "bad", None):
+                    ctx.inconcl(rr.bad)
+        ctx.rule = f"replay of long-handler variant {d['long_variant']} seed {seed} (3 runs)"
+        return
+    for fl, reps in (("plain", 24), ("tsan", 8)):
+        for rep in range(reps):
+            jobs.append(lambda fl=fl, rep=rep: vf.run_resumable(ctx, bins[("c08_timers", fl)], ["--seed", seed],
+                                                                int(d["scenario"]), 1, timeout=900, tag=f"rs{rep}"))
+    for rrs in vf.run_many(ctx, jobs):
+        for rr in rrs:
+            ctx.ingest(rr, where=f"(replay, {rr.flavor})")
+            if getattr(rr, "bad", None):
+                ctx.inconcl(rr.bad)
+    ctx.rule = f"replay of scenario {d['scenario']} seed {seed} (24 plain + 8 tsan runs; the schedule itself is not replayable)"
